@@ -52,7 +52,7 @@ def analyse(name, cases, lines, nex=3):
             rs = [generalise(r) for r in rs.split("|") if r]
             rs = list(dict.fromkeys(rs))
             raw.append([d, t if len(js) == 1 else "(one of %d statements) " % len(js) + t, k, v, rs])
-            lvl = "token" if v == "-" else "text"
+            lvl = "token" if v in ("-", "U", "M") else "text"
             if rs:
                 first[(lvl, rs[0])] += 1
                 if len(rs) == 1:
@@ -65,7 +65,8 @@ def analyse(name, cases, lines, nex=3):
     n = sum(tot.values())
     rows = [{"level": l, "reason": r, "statements_with_it": c, "first_reason_of": first[(l, r)], "only_reason_of": only[(l, r)], "examples": ex.get((l, r), [])}
             for (l, r), c in anyr.most_common()]
-    return {"stream": name, "texts": len(cases), "rejected_by_the_model": rej, "statements": n, "X": tot["X"], "T": tot["T"], "outside": tot["-"],
+    return {"stream": name, "texts": len(cases), "rejected_by_the_model": rej, "statements": n, "X": tot["X"], "T": tot["T"], "outside": tot["-"] + tot["U"],
+            "U_third_fragment_only": tot["U"], "outside_after": tot["-"], "M_inclusion_violations": tot["M"], "remaining": remaining(raw),
             "by_statement_class": {k: dict(v) for k, v in kinds.items()}, "reasons": rows,
             "what_if": what_if(raw), "raw": raw}
 
@@ -81,10 +82,25 @@ GROUPS = [
 ]
 
 
+def remaining(raw):
+    """the reasons of the statements that are outside the third fragment too (alias / literal reasons that the third fragment removes are dropped)"""
+    c = collections.Counter()
+    ex = {}
+    for d, t, k, v, rs in raw:
+        if v != "-":
+            continue
+        rs = [r for r in rs if not GROUPS[0][1](r) and not GROUPS[1][1](r)] or rs
+        for r in rs:
+            c[r] += 1
+            if len(t) < 170 and not t.startswith("(one of"):
+                ex.setdefault(r, [d, t])
+    return [{"reason": r, "statements_with_it": n, "example": ex.get(r)} for r, n in c.most_common()]
+
+
 def what_if(raw):
     """how many statements outside the token-level fragment would fall inside if the reasons of the first k groups were removed (cumulative), and of each group alone"""
     out = []
-    outside = [x for x in raw if x[3] == "-"]
+    outside = [x for x in raw if x[3] in ("-", "U")]
     for k in range(1, len(GROUPS) + 1):
         fs = [f for _, f in GROUPS[:k]]
         cum = sum(1 for x in outside if all(any(f(r) for f in fs) for r in x[4]))
@@ -127,6 +143,9 @@ def main():
             r["stream"], r["texts"], r["rejected_by_the_model"], r["statements"], r["X"], 100.0 * r["X"] / max(1, r["statements"]),
             r["T"], 100.0 * r["T"] / max(1, r["statements"]), r["outside"], 100.0 * r["outside"] / max(1, r["statements"])))
         print("   by class:", json.dumps(r["by_statement_class"], sort_keys=True))
+        print("   AFTER (third fragment): U %d -> outside %d (%.1f %%); inclusion violations %d" % (r["U_third_fragment_only"], r["outside_after"],
+              100.0 * r["outside_after"] / max(1, r["statements"]), r["M_inclusion_violations"]))
+        print("   remaining reasons:", json.dumps([[x["reason"], x["statements_with_it"]] for x in r["remaining"][:25]]))
         print("   what if:", json.dumps(r["what_if"]))
         print("   %-6s %6s %6s %6s  %s" % ("level", "any", "first", "only", "reason"))
         for row in r["reasons"][:a.top]:
